@@ -549,6 +549,17 @@ def running_child_on_same_runner(ctx: Ctx, kind: str) -> None:
         ctx.report(f"stop-hangs[{kind}]:parent-and-running-child", f"[{kind}] run() does not return 46 s after the stop request although the awaited sub-task was RUNNING on the same runner "
                                                                   f"(0.4 s body): parent {inv.status.value}, invocations {others}", {"kind": "parent-child-both-running", "backend": kind, "stacks": stacks})
         T.C11_RELEASE.set()
+        # end the wait of the thread the stop is stuck on (it polls the child for ever and would slow down everything that follows):
+        # below the API the child is given a final status
+        try:
+            from pynenc.invocation.status import InvocationStatus as _S
+
+            for i in o.get_task_invocation_ids(slow.task_id):
+                if not o.get_invocation_status(i).is_final():
+                    inject_status(app, i, _S.FAILED, None, 0)
+            th.join(20)
+        except Exception:  # noqa: BLE001
+            pass
 
 
 def worker_signal_during_cleanup(ctx: Ctx) -> None:
